@@ -578,7 +578,9 @@ def _atom(t, env, W):
             r = _arith(name, label, [ev(a, env, W) for a in t[2]], W)
             if r is not OPAQUE:
                 return r
-        if name in ARITH_METHODS and not m.group(2):
+        if name in ARITH_METHODS and (not m.group(2) or (name in ("leading_zeros", "leading_ones", "bits", "trailing_zeros", "count_ones", "count_zeros")
+                                                          and re.match(r"^::<[NM]>$", m.group(2)))):
+            # (the counting atoms read the operand's own digit count, so an instance at the other width is the same atom)
             # the trusted meaning is used only for loop terminals; a callee with a summarisable (acyclic) body is
             # analysed, not trusted - except the forced atoms, whose own leaves are loop terminals
             if name in FORCED_ATOMS or not _is_local_wrapper(label):
@@ -1000,6 +1002,13 @@ def _prim_atom(name, label, t, env, W):
         a = ev(t[2][0], env, W)
         if isinstance(a, PI):
             return ("Some", W.wrap(m2.group(1), a.v)) if a.v < (1 << W.bits(m2.group(1))) else ("None",)
+        return OPAQUE
+    # From<signed primitive> for a signed bnum integer (its own digit loop): the same value, when the target holds the source type
+    m2 = re.match(r"^<(BIntD32|BIntD16|BIntD8|BInt)<N> as core::convert::From<(i8|i16|i32|i64|i128|isize)>>::from$", label)
+    if m2 and len(t[2]) == 1:
+        a = ev(t[2][0], env, W)
+        if isinstance(a, PI) and W.bits(m2.group(1)) >= PRIM_BITS[m2.group(2)]:
+            return W.wrap(m2.group(1), a.v)
         return OPAQUE
     m2 = re.match(r"^<(BUintD32|BUintD16|BUintD8|BUint)<N> as core::convert::From<(u8|u16|u32|u64|u128|usize)>>::from$", label)
     if m2 and len(t[2]) == 1:
